@@ -229,6 +229,15 @@ var regPorcupine = porcupine.Model{
 func (r *runner) registryChecks(res *Result) {
 	var ops []porcupine.Operation
 	var desc []string
+	for wi := range r.spec.Warm {
+		op, or := &r.spec.Warm[wi], &r.warm[wi]
+		in := regInput{Kind: "greg", Version: op.Version, Invalid: op.Invalid != ""}
+		for _, n := range op.Names {
+			in.Slots = append(in.Slots, slotOf(n))
+		}
+		ops = append(ops, porcupine.Operation{ClientId: 1000, Input: in, Call: int64(or.Invoke), Output: or.Outcome, Return: int64(or.Return)})
+		desc = append(desc, fmt.Sprintf("warm [%d,%d] %s", or.Invoke, or.Return, regPorcupine.DescribeOperation(in, or.Outcome)))
+	}
 	for ti, tops := range r.spec.Tasks {
 		for oi := range tops {
 			op := &tops[oi]
